@@ -156,19 +156,24 @@ class Ctx:
         return ok
 
     # -------------------------------------------------------------- coq
-    def coq_build_theories(self) -> bool:
-        """Full .vo build of the hand-written theories (incremental), serialised by flock."""
+    def coq_build_theories(self, target: str | None = None) -> bool:
+        """Full .vo build (incremental) of the dependency cone of `target` (a path relative to
+        coq/, e.g. theories/Properties/C01.vo) or of everything; serialised by flock."""
         lock = open(COQ / ".build.lock", "w")
         fcntl.flock(lock, fcntl.LOCK_EX)
         try:
-            if not (COQ / "Makefile").exists() or (COQ / "_CoqProject").stat().st_mtime > (COQ / "Makefile").stat().st_mtime:
-                write_coqproject()
+            files = sorted(str(p.relative_to(COQ)) for p in (COQ / "theories").rglob("*.v"))
+            want = "-Q theories Splinkv\n" + "\n".join(files) + "\n"
+            cp = COQ / "_CoqProject"
+            if not cp.exists() or cp.read_text() != want or not (COQ / "Makefile").exists():
+                cp.write_text(want)
                 rc, out, _ = sh(["coq_makefile", "-f", "_CoqProject", "-o", "Makefile"], cwd=COQ)
                 if rc != 0:
                     self.log(out)
                     return False
-            rc, out, dt = sh(["timeout", "1500", "make", "-j12"], cwd=COQ, timeout=1600)
-            self.checker_cmds.append("cd /verif/coq && coq_makefile -f _CoqProject -o Makefile && make -j12")
+            cmd = ["timeout", "1500", "make", "-j12"] + ([target] if target else [])
+            rc, out, dt = sh(cmd, cwd=COQ, timeout=1600)
+            self.checker_cmds.append("cd /verif/coq && coq_makefile -f _CoqProject -o Makefile && make -j12 " + (target or ""))
             if rc != 0:
                 self.log("theories build FAILED\n" + out[-4000:])
             return rc == 0
@@ -176,16 +181,47 @@ class Ctx:
             fcntl.flock(lock, fcntl.LOCK_UN)
             lock.close()
 
-    def forbidden_gate(self) -> bool:
+    def cone(self, relpath: str) -> list[Path]:
+        """Hand-written theory files the property file (transitively) requires (lexical scan of
+        `From Splinkv Require ...` / `Require Splinkv.X`)."""
+        root = COQ / "theories"
+        seen: dict[Path, None] = {}
+        todo = [root / relpath]
+        while todo:
+            f = todo.pop()
+            if f in seen or not f.exists():
+                continue
+            seen[f] = None
+            txt = re.sub(r"\(\*.*?\*\)", "", f.read_text(), flags=re.S)
+            mods = []
+            for m in re.finditer(r"From\s+Splinkv\s+Require\s+(?:Import\s+|Export\s+)?([^.]*(?:\.[A-Za-z][^.]*)*?)\.\s", txt):
+                mods += m.group(1).split()
+            mods += re.findall(r"Splinkv\.([A-Za-z0-9_.]+)", txt)
+            for mod in mods:
+                mod = mod.strip().rstrip(".")
+                if mod.startswith("Splinkv."):
+                    mod = mod[len("Splinkv."):]
+                todo.append(root / (mod.replace(".", "/") + ".v"))
+        return list(seen)
+
+    def forbidden_gate(self, relpath: str | None = None) -> bool:
         bad = []
-        for p in list((COQ / "theories").rglob("*.v")) + list(GEN.glob("*.v")):
+        files = self.cone(relpath) if relpath else list((COQ / "theories").rglob("*.v"))
+        self.cov["coq_files_in_cone"] = sorted(str(f.relative_to(COQ)) for f in files)
+        for p in files + list(GEN.glob(f"{self.pid}_*.v")):
             txt = re.sub(r"\(\*.*?\*\)", "", p.read_text(), flags=re.S)
             for m in FORBIDDEN.finditer(txt):
                 bad.append(f"{p}:{m.group(0)}")
             if re.search(r"^\s*(Variable|Variables|Hypothesis|Hypotheses|Context)\b", txt, flags=re.M):
-                # allowed only inside sections: crude check that the file has a Section
-                if "Section" not in txt:
-                    bad.append(f"{p}:Variable-outside-section")
+                # allowed only inside sections: every such line must lie between Section and End
+                depth = 0
+                for line in txt.splitlines():
+                    if re.match(r"\s*Section\b", line):
+                        depth += 1
+                    elif re.match(r"\s*End\b", line) and depth > 0:
+                        depth -= 1
+                    elif re.match(r"\s*(Variable|Variables|Hypothesis|Hypotheses|Context)\b", line) and depth == 0:
+                        bad.append(f"{p}:Variable-outside-section")
         if bad:
             self.log("forbidden vernacular:", bad[:10])
         return not bad
@@ -223,8 +259,8 @@ class Ctx:
 
     def proof_stage(self, propfile: str) -> bool:
         """gate + build theories + compile property file; records obligations."""
-        ok_gate = self.obligation("forbidden-vernacular gate", self.forbidden_gate())
-        ok_build = self.obligation("theories build (make)", self.coq_build_theories())
+        ok_gate = self.obligation("forbidden-vernacular gate", self.forbidden_gate(propfile))
+        ok_build = self.obligation("theories build (make)", self.coq_build_theories("theories/" + propfile[:-2] + ".vo"))
         if not ok_build:
             return False
         ok, n, blocks = self.coq_property_file(propfile)
